@@ -6,6 +6,7 @@ import (
 	"bytes"
 	"fmt"
 	"math"
+	"math/big"
 	mrand "math/rand/v2"
 	"strings"
 	"testing"
@@ -143,6 +144,78 @@ func c04GenCount(rnd *mrand.Rand, exact bool) float64 {
 	}
 }
 
+// counter of an event that also carries n values: omitted (= n, what Shard.ApplyValues/ApplyUnique substitute for 0) or
+// explicit and different from n — 7/3, 10/4, 1/3, huge/small, ...: the values are then a subsample of weight counter/n
+func c04ExplicitCounter(rnd *mrand.Rand, n float64) float64 {
+	switch rnd.IntN(8) {
+	case 0, 1:
+		return n
+	case 2:
+		return 7
+	case 3:
+		return []float64{1, 10, 11, 5, 3, 13}[rnd.IntN(6)]
+	case 4:
+		return float64(1000000 + rnd.IntN(1000))
+	case 5:
+		return 2*n + 1
+	default:
+		return float64(1 + rnd.IntN(20))
+	}
+}
+
+// exact contribution of one event as the API documents it: counter, Σ v·(counter/len), Σ v²·(counter/len).
+// representable = the three are float64 values whose sums in any order stay exact, and the products the code has to
+// form on the way (Σv·counter, Σv²·counter) fit 53 bits.
+func c04ExactContribution(e *c04Event) (cnt, sum, sq *big.Rat, representable bool) {
+	rat := func(f float64) *big.Rat { return new(big.Rat).SetFloat64(f) }
+	cnt, sum, sq = new(big.Rat), new(big.Rat), new(big.Rat)
+	add := func(v, w float64) {
+		rv, rw := rat(v), rat(w)
+		sum.Add(sum, new(big.Rat).Mul(rv, rw))
+		sq.Add(sq, new(big.Rat).Mul(new(big.Rat).Mul(rv, rv), rw))
+	}
+	if e.Count > 0 {
+		cnt = rat(e.Count)
+	}
+	n := 0.0
+	switch e.Kind {
+	case "V", "P":
+		add(e.Vals[0], e.Count)
+	case "A":
+		n = e.Total
+	case "U":
+		n = float64(len(e.Vals))
+	}
+	fits := func(r *big.Rat, bits uint) bool {
+		lim := new(big.Rat).SetInt(new(big.Int).Lsh(big.NewInt(1), bits))
+		return new(big.Rat).Abs(r).Cmp(lim) < 0
+	}
+	representable = true
+	if n > 0 {
+		for _, v := range e.Vals {
+			add(v, 1)
+		}
+		for _, h := range e.Hist {
+			add(h[0], h[1])
+		}
+		if e.Count != n {
+			c := rat(e.Count)
+			sum.Mul(sum, c)
+			sq.Mul(sq, c)
+			representable = fits(sum, 53) && fits(sq, 53)
+			sum.Quo(sum, rat(n))
+			sq.Quo(sq, rat(n))
+		}
+	}
+	for _, r := range []*big.Rat{cnt, sum, sq} {
+		_, exact := r.Float64()
+		if !exact || !fits(r, 32) || r.Denom().Cmp(big.NewInt(1024)) > 0 {
+			representable = false
+		}
+	}
+	return
+}
+
 func c04GenValueCase(rnd *mrand.Rand) c04ValueCase {
 	c := c04ValueCase{exact: rnd.IntN(3) != 0}
 	nLeaves := 2 + rnd.IntN(7)
@@ -153,6 +226,7 @@ func c04GenValueCase(rnd *mrand.Rand) c04ValueCase {
 	hostOff := rnd.IntN(len(c04Hosts))
 	counterOnly := rnd.IntN(8) == 0
 	ties := rnd.IntN(3) == 0
+	scaled := c.exact && !counterOnly && rnd.IntN(3) == 0
 	for l := 0; l < nLeaves; l++ {
 		nEv := 1
 		if rnd.IntN(3) == 0 {
@@ -162,6 +236,9 @@ func c04GenValueCase(rnd *mrand.Rand) c04ValueCase {
 		for k := 0; k < nEv; k++ {
 			e := c04Event{Host: c04Hosts[(hostOff+rnd.IntN(nHosts))%len(c04Hosts)], Count: c04GenCount(rnd, c.exact)}
 			kind := rnd.IntN(12)
+			if scaled && rnd.IntN(3) != 0 {
+				kind = 9 + rnd.IntN(3) // value arrays, histograms and unique sets carrying their own counter
+			}
 			if counterOnly {
 				kind = 0
 			}
@@ -190,8 +267,18 @@ func c04GenValueCase(rnd *mrand.Rand) c04ValueCase {
 						e.Total += cc
 					}
 				}
-				if c.exact || rnd.IntN(2) == 0 {
-					e.Count = e.Total // no rescaling ⇒ sums stay integers
+				if c.exact {
+					if rnd.IntN(2) == 0 { // one value repeated: Σv·counter/len is an integer whatever the ratio is
+						for j := range e.Vals {
+							e.Vals[j] = e.Vals[0]
+						}
+						for j := range e.Hist {
+							e.Hist[j][0] = e.Vals[0]
+						}
+					}
+					e.Count = c04ExplicitCounter(rnd, e.Total)
+				} else if rnd.IntN(2) == 0 {
+					e.Count = e.Total
 				}
 			default:
 				e.Kind = "U"
@@ -202,7 +289,14 @@ func c04GenValueCase(rnd *mrand.Rand) c04ValueCase {
 						e.Vals = append(e.Vals, float64(rnd.Int64()>>uint(rnd.IntN(40))))
 					}
 				}
-				if c.exact || rnd.IntN(2) == 0 {
+				if c.exact {
+					if rnd.IntN(2) == 0 {
+						for j := range e.Vals {
+							e.Vals[j] = e.Vals[0]
+						}
+					}
+					e.Count = c04ExplicitCounter(rnd, float64(len(e.Vals)))
+				} else if rnd.IntN(2) == 0 {
 					e.Count = float64(len(e.Vals))
 				}
 			}
@@ -244,6 +338,59 @@ func c04RunValues(r *verifkit.Run, w *verifkit.Worker, n int, trials int) {
 				flat = append(flat, evs[k])
 			}
 		}
+		// exact reference of what the events contribute (integer-valued cases): every leaf is first compared with it
+		useRat, ratRep, leafBroken := c.exact, true, false
+		ratSum, ratSq := new(big.Rat), new(big.Rat)
+		var ratAbs float64
+		if useRat {
+			for i, evs := range c.events {
+				lSum, lSq := new(big.Rat), new(big.Rat)
+				lRep := true
+				var lAbs float64
+				for k := range evs {
+					_, es, eq, rep := c04ExactContribution(&evs[k])
+					lSum.Add(lSum, es)
+					lSq.Add(lSq, eq)
+					lRep = lRep && rep
+					f, _ := es.Float64()
+					lAbs += math.Abs(f)
+				}
+				ratSum.Add(ratSum, lSum)
+				ratSq.Add(ratSq, lSq)
+				ratRep = ratRep && lRep
+				ratAbs += lAbs
+				if !leaves[i].Value.ValueSet {
+					continue
+				}
+				wantS, _ := lSum.Float64()
+				wantQ, _ := lSq.Float64()
+				gotS, gotQ := leaves[i].Value.ValueSum, leaves[i].Value.ValueSumSquare
+				w.Count("values.leaves.compared_with_exact_contribution", 1)
+				bad := ""
+				if lRep {
+					w.Count("values.leaves.exactly_representable", 1)
+					if gotS != wantS || gotQ != wantQ {
+						bad = "contribution-not-exact"
+					}
+				} else if math.Abs(gotS-wantS) > 1e-9*lAbs || math.Abs(gotQ-wantQ) > 1e-9*wantQ {
+					bad = "contribution"
+				}
+				if bad != "" {
+					leafBroken = true
+					r.Violation("C04/event-apply/"+bad, fmt.Sprintf("events applied to one value give sum %v sumsq %v, exactly Σv·(counter/len) = %v and Σv²·(counter/len) = %v", gotS, gotQ, lSum.RatString(), lSq.RatString()),
+						map[string]any{"events": evs, "representable_float64": lRep})
+				}
+			}
+			for _, evs := range c.events {
+				for k := range evs {
+					if (evs[k].Kind == "A" && evs[k].Count != evs[k].Total) || (evs[k].Kind == "U" && evs[k].Count != float64(len(evs[k].Vals))) {
+						w.Count("values.events.counter_differs_from_number_of_values", 1)
+					}
+				}
+			}
+		}
+		ratSumF, _ := ratSum.Float64()
+		ratSqF, _ := ratSq.Float64()
 		// reference from the contributions
 		var refCount, refSum, refSumSq, absSum float64
 		refMin, refMax := math.Inf(1), math.Inf(-1)
@@ -356,6 +503,17 @@ func c04RunValues(r *verifkit.Run, w *verifkit.Worker, n int, trials int) {
 				}
 				if !maxHosts[o.maxHost] {
 					bad("max-host/not-a-contributor", "max host %s did not contribute the maximum %v", c04HostString(o.maxHost), refMax)
+				}
+			}
+			if useRat && !leafBroken && refSet && o.set {
+				// the same multiset must give the exact total whatever the order: bit-identical when every contribution is
+				// representable, within rounding otherwise
+				if ratRep {
+					if o.sum != ratSumF || o.sumsq != ratSqF {
+						bad("value-merge/sum-exact", "sum %v sumsq %v, the events contribute exactly %v / %v", o.sum, o.sumsq, ratSum.RatString(), ratSq.RatString())
+					}
+				} else if !near(o.sum, ratSumF, ratAbs) || !near(o.sumsq, ratSqF, ratSqF) {
+					bad("value-merge/sum", "sum %v sumsq %v, the events contribute %v / %v", o.sum, o.sumsq, ratSumF, ratSqF)
 				}
 			}
 			if refCount > 0 {
